@@ -65,7 +65,6 @@ HandWritten == {
    <<"a", ":", "u", "+", "x", ",">>, <<"a", ":", "u", "+", "x", ",", ",", "a", ":", "u", "+", "r">>,      \* empty later clause: unsettled
    <<"a", ":", "u", "+", "x", ",", "f", ":", "a", "+">>,                                                  \* later clause without permission
    <<"a", ":", "u", "+", "-", "x">>, <<"a", ":", "+", "x">>, <<"a", "u", "+", "x">>, <<"u", "+", "x">> }
-WellFormedOnes == Singles \cup Doubles \cup HandWritten
 IsRaw(e) == \/ \E n \in 0..MaxLen : e \in [1..n -> Alphabet]
             \/ \E n \in (MaxLen - 1)..(LongLen - 2) : \E t \in {"d", "f", "a"} : \E x \in [1..n -> Alphabet] : e = <<t, ":">> \o x
             \/ \E n \in 0..(MaxLen - 1) : \E x \in [1..n -> Alphabet] : e = GoodHead \o x
